@@ -639,7 +639,9 @@ func (g *gen) catalogue(k *keyEntry) {
 	enc("percent encoded dot", strings.Replace(baseKid, ".", "%2E", 1))
 	enc("nul byte appended", baseKid+"\x00")
 	// JSON level tricks, signed by the legitimate key (not canonical: go-jose may be stricter)
-	trick := func(note string, hdr, payload []byte) { g.add("json-tricks", note, false, false, sign(hdr, payload), k.Name, hdrAlg) }
+	trick := func(note string, hdr, payload []byte) {
+		g.add("json-tricks", note, false, false, sign(hdr, payload), k.Name, hdrAlg)
+	}
 	trick("duplicate alg none first", jobj("alg", "none", "alg", hdrAlg, "kid", k.Kid), pl)
 	trick("duplicate alg none last", jobj("alg", hdrAlg, "alg", "none", "kid", k.Kid), pl)
 	trick("upper case ALG", jobj("ALG", hdrAlg, "kid", k.Kid), pl)
